@@ -20,11 +20,14 @@ T = {
             'Python html.escape is the definition of "standard HTML escaping '
             '(with quotes)"'),
     'C04': ('exhaustive enumeration of the 4096 modifier subsets x forms x '
-            'tainted carriers + formats; non-interference oracle on "<"',
+            'tainted carriers + formats, and of the stage product fmt= x '
+            'C-format x modifier subsets; non-interference oracle on "<"',
             'tainted carrier strings as in DESIGN C04; literal text and etc '
             'strings contain no "<"'),
-    'C05': ('channel catalogue x guard policies, value non-interference '
-            'oracle (two renders differing only in denied data)',
+    'C05': ('channel catalogue x guard policies (enumerated) + Hypothesis-'
+            'generated compositions of the reading channels over an object '
+            'graph under random refusal policies; value non-interference '
+            'oracle (two renders differing only in refused data)',
             'guards supplied by an HTML subclass (documented extension '
             'point); channels are those named in the statement'),
     'C06': ('Hypothesis tag soup, exhaustive single mutations / truncations '
@@ -65,19 +68,22 @@ T = {
             'single-modifier reference functions written from the docs'),
     'C16': ('Hypothesis value lists vs closed-form recomputation with stated '
             'tolerances',
-            'tolerance 1e-9*(1+mean square)'),
+            'mean within 1e-9*(1+mean square); variances within 64 ulp of '
+            '(1+mean square), the rounding a one-pass formula can incur'),
     'C17': ('Hypothesis RuleBasedStateMachine over render / pickle / deepcopy '
             '/ munge / cook histories; fresh-template differential oracle',
             'fresh template of the same source is the reference'),
     'C18': ('deterministic line-level thread scheduler: systematic 1- and '
-            '2-preemption schedules + Hypothesis PCT schedules; sequential '
+            '2-preemption schedules + Hypothesis PCT schedules, package '
+            'global state reset before every schedule; sequential '
             'specification oracle',
             'preemption at Python line granularity inside the package'),
     'C19': ('Hypothesis texts x encodings x insertion forms; bytes-vs-text '
             'metamorphic relation; ustr table',
             'only the insertion forms named by the statement'),
-    'C20': ('exhaustive BFS over tree shapes x click histories + Hypothesis '
-            'state machine; set-of-expanded-paths model; codec round trip',
+    'C20': ('exhaustive enumeration of tree shapes x click histories x tag '
+            'options + Hypothesis state machine; set-of-expanded-paths '
+            'model; codec round trip up to 300 KB states',
             'harness plays the browser (parses links, feeds cookie back)'),
 }
 
